@@ -11,8 +11,8 @@ From CNV Require Gen.VcfDefaults.
 (* ---- numbers ----------------------------------------------------------- *)
 
 (* a float column cell: a finite rational, +inf (count > 0 over depth 0: fillna
-   fills NaN only), or NaN (only ever produced by the index-aligned TumorBoost
-   assignment of Model/VBaf.v; the reader fills every NaN with 0) *)
+   fills NaN only), or NaN (the reader fills every NaN with 0; NaN only arises in
+   Model/VBaf.v: TumorBoost of t = n = 1, and the BAF of a range without a hit) *)
 Inductive xq := Fin (q : Q) | PInf | XNaN.
 
 Definition Qlt_bool (a b : Q) : bool := negb (Qle_bool b a).
@@ -287,11 +287,10 @@ Definition sort_rows (rows : list vrow) : list vrow := isort row_le rows.
 
 (* ---- read_vcf + tabio.read ---------------------------------------------- *)
 
-(* t_bare: a table WITHOUT any row before filtering has object-typed columns; with
-   skip_somatic, `table[~idx_som]` then selects zero COLUMNS, and GenomicArray
-   replaces the column-less frame by a blank one that has only the five required
-   columns (no depth / zygosity / alt_freq, no normal columns) *)
-Record vtable := { t_bare : bool; t_paired : bool; t_rows : list vrow }.
+(* a file without records gives a table without rows that still has every column
+   (value columns are made numeric right after DataFrame.from_records, so the
+   boolean filters select rows, never columns): paired or not as chosen *)
+Record vtable := { t_paired : bool; t_rows : list vrow }.
 
 Definition sample_index (h : header) (o : option string) : option nat :=
   match o with Some s => index_of s (h_samples h) | None => None end.
@@ -305,9 +304,7 @@ Definition read_vcf (h : header) (recs : list vrec) (ssel nsel : sel)
       match all_rows (sample_index h sid) (sample_index h nid') skip_reject recs with
       | None => Fail "decode"
       | Some rows =>
-          let bare := skip_somatic && match rows with [] => true | _ => false end in
-          Ok {| t_bare := bare;
-                t_paired := truthy nid && negb bare;
+          Ok {| t_paired := truthy nid;
                 t_rows := sort_rows (somatic_filter skip_somatic (depth_filter min_depth rows)) |}
       end
   end.
